@@ -369,9 +369,12 @@ def _fresh_receiver(f, recv, at) -> bool:
           and s.lineno < at.lineno]
   if not defs:
     return False
-  v = unparse(max(defs, key=lambda s: s.lineno).value)
-  return (v.endswith(f'.map_children({recv.id})') or
-          v in (f'copy.copy({recv.id})', f'copy.deepcopy({recv.id})'))
+  v = max(defs, key=lambda s: s.lineno).value
+  # a copy of anything is new, whatever name it is kept under
+  return isinstance(v, ast.Call) and len(v.args) == 1 and not v.keywords and (
+      unparse(v.func) in ('copy.copy', 'copy.deepcopy') or (
+          isinstance(v.func, ast.Attribute) and
+          v.func.attr == 'map_children'))
 
 
 def store_primitives(ctx: Ctx, rs: RuleSet):
